@@ -5,7 +5,7 @@ import ast
 
 from ..astutil import attr_path, call_name, walk, src
 from ..boolexpr import NotBoolean, equivalent, make_fold, show as fshow, to_formula
-from ..bytelayout import Layouter, flatten, show
+from ..bytelayout import Layouter, flatten, show, strip_guards
 from ..consteval import UNKNOWN, ClassRef
 from ..framework import rule
 from ..linexpr import atom_name, cmp_norm, lin
@@ -317,7 +317,7 @@ def d9_6(ctx):
     """Port segment: port byte (extended-link bit iff link longer than one byte), optional length byte, link bytes."""
     ps = _seg(ctx, "PortSegment")
     fn = ps.methods["_encode"]
-    lay = flatten(Layouter(ctx, ps.module, ps, fn).function(fn) or [])
+    lay = strip_guards(Layouter(ctx, ps.module, ps, fn).function(fn) or [])
     good, facts = False, {"layout": show(lay)}
     if len(lay) >= 4:
         good = lay[0][0] == "enc" and lay[0][1] == "USINT" and lay[1][0] == "alt" and "len(link)>1" in lay[1][1] and len(lay[1][2]) == 1 and lay[1][2][0][0] == "lenof" and lay[1][2][0][1] == "USINT" and lay[1][2][0][3] == "link" and lay[1][3] == [] and lay[-1][0] == "pad"
@@ -328,3 +328,23 @@ def d9_6(ctx):
     nums = [c for c in walk(fn) if isinstance(c, ast.Call) and attr_path(c.func) == "USINT.encode" and c.args and ("link_address" in src(c.args[0]))]
     ip = any(isinstance(c, ast.Call) and (call_name(c) or "").endswith("ip_address") for c in walk(fn))
     ctx.check(len(nums) == 2 and ip, ckey(ps.key + "._encode", "link-validation"), fn, "numeric links go through USINT (0..255); dotted links are validated by ipaddress", "link addresses are no longer range-checked (USINT) / validated (ipaddress)")
+
+
+@rule(P, "D9.7", "T-BITS", floor=1)
+def d9_7(ctx):
+    """Port numbers are confined to the 4-bit port field (1..14) before they are OR-ed into the port byte."""
+    from ..guards import accepted_values
+
+    ps = _seg(ctx, "PortSegment")
+    fn = ps.methods["_encode"]
+    g = ctx.cfg(fn)
+    uses = [n for n in g.nodes if n.kind == "stmt" and n.ast is not None and any(isinstance(c, ast.Call) and attr_path(c.func) == "USINT.encode" and c.args and atom_name(c.args[0]) == "port" for c in walk(n.ast))]
+    if len(uses) != 1:
+        ctx.undecided(ckey(ps.key + "._encode", "port-range"), fn, "port byte construction not found")
+        return
+    sp = ctx.spec("epath")["port_segment"]
+    points, accepted, conds = accepted_values(ctx, g, ps.module, "port", uses[0], extra_points=(1, sp["port_mask"] - 1, sp["port_mask"], sp["extended_link_bit"]))
+    lo, hi = 1, sp["port_mask"] - 1
+    ok = accepted is not None and all((lo <= v <= hi) == (v in accepted) for v in points)
+    ctx.check(ok, ckey(ps.key + "._encode", "port-range"), uses[0].ast, f"only ports {lo}..{hi} reach the port byte (others raise)",
+              f"port numbers are not confined to {lo}..{hi} before `USINT.encode(port)`: a port of {sp['extended_link_bit'] + 1} sets the extended-link bit and the emitted segment denotes another route (accepted sample values: {accepted})", accepted=accepted, tests=[src(t.ast) for t, _ in conds])
